@@ -72,6 +72,12 @@ def _specs(tier: str):
     prepwin = ('chain2-prepwin', [('P1', shapes['chain2'])], 1, 2, flows_q,
                {'only_parts': ['1/a+1/b'], 'prepwin': True}, (), 1)
     rows.append(prepwin)
+    # in-group order across cycles: the downstream member may already be in
+    # the pool (partially satisfied by 2/c) when the group is triggered
+    xcyc = ('xcycle-f2', [('P1', [E(AND(A(a, -1), A(c)), b), N(a)])], 2, 2,
+            flows_q, {'only_parts': ['1/a+2/b'],
+                      'scheduling': {'runahead limit': 'P0'}}, (), 1)
+    rows.append(xcyc)
     if tier == 'thorough':
         rows = [
             ('chain3', [('P1', shapes['chain3'])], 1, 3, flows_t, {}, (), 1),
@@ -92,6 +98,10 @@ def _specs(tier: str):
             ('chain3-holdpt', [('P1', shapes['chain3'])], 1, 2, flows_q,
              {'options': {'holdcp': '0'}}, (), 1),
             prepwin,
+            (xcyc[0], xcyc[1], 2, 2, ['all', 'new'],
+             {'scheduling': {'runahead limit': 'P0'}, 'only_parts': ['1/a+2/b', '2/b+2/c', '1/a+2/a', '1/b+2/b',
+                             '1/c+2/b']},
+             (), 1),
             ('chain2-x2', [('P1', shapes['chain2'])], 1, 1, ['all', 'new'],
              {}, (), 2),
             # the whole group twice; events settle between commands
